@@ -22,6 +22,7 @@ def boundaries(chunks):
 
 class Check(CheckBase):
     property_id = 'C11'
+    evaluations_counter = 'pairs'
     level = 'exploration'
     rule = ('pairs of related streams run through the real adapter over the freshly compiled chunker: '
             '(suffix) P1+S vs P2+S with aligned random prefixes; (edit) X vs X with an aligned '
